@@ -366,6 +366,11 @@ def worker_main(argv):
             summ["samples"].append(engine.sample(sc, res))
         for v in res.get("violations", ()):
             if v.get("property", prop) != prop:
+                # a mismatch the engine attributes to another property: not this check's to report,
+                # but counted, so that a run which ended there does not end silently
+                fo = summ.setdefault("foreign", {})
+                key = f"{v.get('property')}:{v['class']}"
+                fo[key] = fo.get(key, 0) + 1
                 continue
             if v["class"] in seen_classes:
                 continue
@@ -519,6 +524,10 @@ def main(argv=None):
 
 def finish(prop, tier, batch_seed, engine, summaries, harness, wall_s, write_ev=True):
     runs = sum(s["runs"] for s in summaries)
+    foreign = {}
+    for s in summaries:
+        for k, n in (s.get("foreign") or {}).items():
+            foreign[k] = foreign.get(k, 0) + n
     nontrivial = sum(s["nontrivial"] for s in summaries)
     keys = set()
     ikeys = set()
@@ -581,6 +590,7 @@ def finish(prop, tier, batch_seed, engine, summaries, harness, wall_s, write_ev=
             "known_findings_printed": sorted(printed_known),
             "wall_stopped_early": any(s.get("wall_stop") for s in summaries),
             "slow_runs_repeated": sum(s.get("slow_runs", 0) for s in summaries),
+            "mismatches_attributed_to_other_properties": foreign,
             "workers": len(summaries),
         },
         "assumptions": engine.assumptions(),
@@ -600,6 +610,11 @@ def finish(prop, tier, batch_seed, engine, summaries, harness, wall_s, write_ev=
         with open(tmp, "w") as f:
             json.dump(ev, f, indent=1, sort_keys=True, default=str)
         os.replace(tmp, os.path.join(VERIF, "evidence", f"{prop}.json"))
+    if foreign:
+        # known findings of other properties show up here too (their own checks print them)
+        print(f"NOTE {prop}: {sum(foreign.values())} run(s) met a mismatch that belongs to another "
+              f"property and is reported by that property's check: "
+              + ", ".join(f"{k} x{n}" for k, n in sorted(foreign.items())[:6]))
     print(f"{prop} {tier}: runs={runs} evaluations={evaluations} distinct={len(keys)} "
           f"violations={len(new)} known={len(printed_known)} wall={wall_s:.1f}s")
     if len(keys) < 2 and not new:
